@@ -2,6 +2,7 @@
 // spec/MC_Glam.tla (basis matrices and penalty matrices in rationals) and compares with the solution of the exact
 // normal equations.
 //   fit_driver fit <axes.ndjson> <problems.ndjson> <seed> <out.ndjson> [mono]
+//   fit_driver large <out.ndjson>                                                 one 2-D problem with more than 2^16 coefficients
 //   fit_driver threads <axes.ndjson> <problems.ndjson> <seed> <out.ndjson>      coefficient bits of monotonic fits (OMP_NUM_THREADS from env)
 #include "evalapi.h"
 #include <fstream>
@@ -105,7 +106,34 @@ static bool run_fit(const Problem& p, uint32_t monodim, bool shuffled, bool extr
 	return true;
 }
 
+// One well-posed problem beyond 2^16 coefficients: positions in the flattened normal-equation array F (coefficients squared)
+// then exceed 2^32.  Order-1 splines on integer knots, data at every knot and every midpoint of the fully supported range,
+// generated from known integer coefficients c0: the residual of c0 is zero and the basis matrix has full column rank, so c0
+// is the unique minimiser of the unpenalised objective for any positive weights (Glam.tla: N = B'WB is positive definite).
+static int large_mode(const char* outp) {
+	FILE* out = fopen(outp, "w"); const int na[2] = {260, 257}; std::vector<std::vector<double>> knots(2), xs(2);
+	for (int d = 0; d < 2; d++) { for (int k = 0; k < na[d] + 2; k++) knots[d].push_back(k); for (int k = 2; k <= 2 * na[d]; k++) xs[d].push_back(0.5 * k); }
+	auto c0 = [&](int a, int b) { return (double)(((a * 7 + b * 3) % 5) + 1); };
+	auto hat = [](double x, int i) { double v = 1 - std::fabs(x - (i + 1)); return v > 0 ? v : 0.0; };   // basis i of order 1 on integer knots peaks at knot i+1
+	photospline::ndsparse data(xs[0].size() * xs[1].size(), 2); std::vector<double> w;
+	for (size_t i = 0; i < xs[0].size(); i++) for (size_t j = 0; j < xs[1].size(); j++) {
+		int a0 = (int)std::floor(xs[0][i]) - 1, b0 = (int)std::floor(xs[1][j]) - 1; double z = 0;
+		for (int a = a0; a <= a0 + 1; a++) for (int b = b0; b <= b0 + 1; b++) if (a >= 0 && a < na[0] && b >= 0 && b < na[1]) z += c0(a, b) * hat(xs[0][i], a) * hat(xs[1][j], b);
+		unsigned id[2] = {(unsigned)i, (unsigned)j}; data.insertEntry(z, id); w.push_back(1.0 + 0.5 * ((i + 2 * j) % 3));
+	}
+	data.ranges[0] = (unsigned)xs[0].size(); data.ranges[1] = (unsigned)xs[1].size();
+	Table t; bool ok = true; std::string err;
+	try { t.fit(data, w, xs, std::vector<uint32_t>{1, 1}, knots, std::vector<double>{0.0, 0.0}, std::vector<uint32_t>{1, 1}, Table::no_monodim, false); }
+	catch (std::exception& e) { ok = false; err = e.what(); }
+	double worst = 0; long bad = 0;
+	if (ok && t.get_ncoeffs() == (uint64_t)na[0] * na[1]) { for (int a = 0; a < na[0]; a++) for (int b = 0; b < na[1]; b++) { double e = std::fabs((double)t.get_coefficients()[(size_t)a * na[1] + b] - c0(a, b)); if (!(e <= 1e-3)) bad++; if (e > worst || e != e) worst = e; } }
+	else ok = false;
+	JW wj; wj.s("kind", "large").b("completed", ok).s("err", err).i("ncoef", (long)na[0] * na[1]).i("bad", bad).d("worst", worst); wj.emit(out); fclose(out);
+	return 0;
+}
+
 int main(int argc, char** argv) {
+	if (argc >= 3 && std::string(argv[1]) == "large") return large_mode(argv[2]);
 	if (argc < 6) return 2; std::string mode = argv[1]; load_axes(argv[2]); std::ifstream pf(argv[3]); Rng rng(strtoull(argv[4], 0, 10)); FILE* out = fopen(argv[5], "w");
 	bool mono = argc > 6 && std::string(argv[6]) == "mono"; std::string line; long np = 0;
 	if (!getenv("OMP_NUM_THREADS")) setenv("OMP_NUM_THREADS", "2", 1);
